@@ -106,7 +106,7 @@ def run(sid, scale, tier, seed):
         print(f"{'CAUGHT' if caught else 'MISSED(exit=%d)' % p.returncode:16s} {sid:28s} {prop} {time.time() - t0:6.1f}s {detail[0][:260] if detail else (summary[-1] if summary else p.stdout[-300:])}")
         sys.stdout.flush()
         return {"caught": caught, "exit": p.returncode, "tier": tier, "seed": seed, "scale": scale, "first_violation": detail[0][:400] if detail else None,
-                "clauses": sorted({json.loads(d.split(":", 1)[1]).get("clause") for d in detail}) if detail else []}
+                "clauses": sorted({m.group(1) for d in detail for m in [__import__("re").search(r'"clause": "([a-z_]+)"', d)] if m})}
     finally:
         shutil.rmtree(root, ignore_errors=True)
 
